@@ -52,6 +52,7 @@ GserTable ==
      XC(XStrSeq, << [s |-> Present(<<120>>), t |-> Present(<<121>>)],
                     [s |-> Present(<<120, 34, 44, 32, 116, 32, 34, 121>>), t |-> Absent],
                     [s |-> Present(<<>>), t |-> Present(<<>>)],
+                    [s |-> Present(<<120>>), t |-> Present(<<108, 10, 32, 109>>)],
                     [s |-> Present(<<34>>), t |-> Present(<<34, 34>>)] >>),
      XC(XStrSet, << [t |-> Present(<<72, 105>>), s |-> Present(<<125, 44>>), n |-> Absent],
                     [t |-> Present(<<>>), s |-> Present(<<10, 32, 32>>), n |-> Present(B(7))],
